@@ -5,10 +5,17 @@ set_option linter.style.nameCheck false
 namespace PetgraphModel.AdjProofs
 open PetgraphModel.AdjM PetgraphModel.AppendSpec
 
-/-- abstract effect and answer of one mutating call on the insertion log -/
-def specStep (g : ML) : Op → ML × Out
-  | .addNode => let (g', i) := g.addNode; (g', .ix i)
-  | .addNodeFromEdges es => let (g', i) := g.addNodeFrom es; (g', .ix i)
+/-- abstract effect and answer of one mutating call on the insertion log; `m` = number of values of the node
+index type (`0`: unbounded): `add_node*` on a `full` list is the documented panic and changes nothing -/
+def specStep (m : Nat) (g : ML) : Op → ML × Out
+  | .addNode =>
+    match g.addNodeCap m with
+    | some (g', i) => (g', .ix i)
+    | none => (g, .panic)
+  | .addNodeFromEdges es =>
+    match g.addNodeFromCap m es with
+    | some (g', i) => (g', .ix i)
+    | none => (g, .panic)
   | .addEdge a b w =>
     match g.addEdge a b w with
     | some (g', e) => (g', .eix e)
@@ -23,12 +30,47 @@ def specStep (g : ML) : Op → ML × Out
     | none => (g, .found false)
   | .clear => (g.clear, .unit)
 
-def specRun (g : ML) : List Op → ML × List Out
+def specRun (m : Nat) (g : ML) : List Op → ML × List Out
   | [] => (g, [])
   | op :: ops =>
-    let (g1, o) := specStep g op
-    let (g2, os) := specRun g1 ops
+    let (g1, o) := specStep m g op
+    let (g2, os) := specRun m g1 ops
     (g2, o :: os)
+
+theorem full_iff (m n : Nat) : full m n = true ↔ ¬ (m = 0 ∨ n < m) := by
+  simp [full]
+
+theorem fitsIx_iff (m i : Nat) : fitsIx m i = true ↔ (m = 0 ∨ i < m) := by
+  simp [fitsIx]
+
+theorem addNodeCap_fit (m : Nat) (g : ML) (h : m = 0 ∨ g.n < m) : g.addNodeCap m = some g.addNode := by
+  have : full m g.n = false := by rw [← Bool.not_eq_true, full_iff]; exact fun hh => hh h
+  simp [ML.addNodeCap, this]
+
+theorem addNodeCap_full (m : Nat) (g : ML) (h : ¬ (m = 0 ∨ g.n < m)) : g.addNodeCap m = none := by
+  have : full m g.n = true := (full_iff m g.n).mpr h
+  simp [ML.addNodeCap, this]
+
+theorem addNodeFromCap_fit (m : Nat) (g : ML) (es : Row) (h : m = 0 ∨ g.n < m) :
+    g.addNodeFromCap m es = some (g.addNodeFrom es) := by
+  have : full m g.n = false := by rw [← Bool.not_eq_true, full_iff]; exact fun hh => hh h
+  simp [ML.addNodeFromCap, this]
+
+theorem addNodeFromCap_full (m : Nat) (g : ML) (es : Row) (h : ¬ (m = 0 ∨ g.n < m)) :
+    g.addNodeFromCap m es = none := by
+  have : full m g.n = true := (full_iff m g.n).mpr h
+  simp [ML.addNodeFromCap, this]
+
+/-- `next_node_index()` below the capacity of the index type -/
+theorem nextNodeIndex_fit (s : State) (h : s.modulus = 0 ∨ s.suc.length < s.modulus) :
+    nextNodeIndex s = some s.suc.length := by
+  simp [nextNodeIndex, (fitsIx_iff _ _).mpr h]
+
+/-- `next_node_index()` at the capacity of the index type: the `assert!` fires -/
+theorem nextNodeIndex_full (s : State) (h : ¬ (s.modulus = 0 ∨ s.suc.length < s.modulus)) :
+    nextNodeIndex s = none := by
+  have : fitsIx s.modulus s.suc.length = false := by rw [← Bool.not_eq_true, fitsIx_iff]; exact h
+  simp [nextNodeIndex, this]
 
 def rowOf (g : ML) (a : Nat) : Row := (g.outOf a).map fun e => (e.tgt, e.w)
 
@@ -317,7 +359,9 @@ theorem LAbs.pushMany {s : State} {g : ML} (h : LAbs s g) (i : Nat) (hi : i < g.
     have := ih h1 hi1 (row ++ [(e.1, e.2)]) hrow1
     simpa [List.foldl_cons, List.append_assoc] using this
 
-/-- no node beyond the capacity of the index type -/
+/-- no `add_node*` is issued while the list is `full`, i.e. the history never runs into the capacity panic.
+(Before commit 8cab180 — finding D31 — the refinement theorems needed this hypothesis; now they hold for every
+history and `Fits` only serves the callers that still state it.) -/
 def Fits (m : Nat) : Nat → List Op → Prop
   | _, [] => True
   | n, op :: ops =>
@@ -339,29 +383,43 @@ theorem new_abs (m : Nat) : LAbs (AdjM.new m) {} := by
   · intro a; rfl
   · intro e he; cases he
 
-/-- **refinement of one call** -/
-theorem step_refines {s : State} {g : ML} (h : LAbs s g) (op : Op)
-    (hfit : (op = .addNode ∨ ∃ es, op = .addNodeFromEdges es) → s.modulus = 0 ∨ g.n < s.modulus) :
-    LAbs (step s op).1 (specStep g op).1 ∧ (step s op).2 = (specStep g op).2 ∧
+/-- **refinement of one call** — EVERY call, including `add_node*` at the capacity of the index type
+(documented panic, unchanged) -/
+theorem step_refines {s : State} {g : ML} (h : LAbs s g) (op : Op) :
+    LAbs (step s op).1 (specStep s.modulus g op).1 ∧ (step s op).2 = (specStep s.modulus g op).2 ∧
       (step s op).1.modulus = s.modulus := by
   cases op with
   | addNode =>
-    refine ⟨h.addNode, ?_, rfl⟩
-    simp only [step, AdjM.addNode, specStep, ML.addNode]
-    rw [← h.n, mkIx_of_fits _ _ (hfit (Or.inl rfl))]
+    by_cases hfit : s.modulus = 0 ∨ g.n < s.modulus
+    · have hm := nextNodeIndex_fit s (by rw [← h.n]; exact hfit)
+      have hs := addNodeCap_fit s.modulus g hfit
+      refine ⟨?_, ?_, ?_⟩
+      all_goals simp only [step, AdjM.addNode, hm, specStep, hs, ML.addNode]
+      · exact h.addNode
+      · rw [← h.n, mkIx_of_fits _ _ hfit]
+    · have hm := nextNodeIndex_full s (by rw [← h.n]; exact hfit)
+      have hs := addNodeCap_full s.modulus g hfit
+      simp only [step, AdjM.addNode, hm, specStep, hs]
+      exact ⟨h, trivial, trivial⟩
   | addNodeFromEdges es =>
-    have h1 := h.addNode
-    have hrow : ({ s with suc := s.suc ++ [[]] } : State).suc[g.n]? = some [] := by
-      simp [h.n]
-    have h2 := h1.pushMany g.n (Nat.lt_succ_self _) es [] hrow
-    refine ⟨?_, ?_, rfl⟩
-    · simp only [step, addNodeFromEdges, specStep, ML.addNodeFrom]
-      have : (s.suc ++ [[]]).set g.n es = s.suc ++ [es] := by
-        rw [h.n]; simp
-      simp only [List.nil_append, this] at h2
-      exact h2
-    · simp only [step, addNodeFromEdges, specStep, ML.addNodeFrom]
-      rw [← h.n, mkIx_of_fits _ _ (hfit (Or.inr ⟨es, rfl⟩))]
+    by_cases hfit : s.modulus = 0 ∨ g.n < s.modulus
+    · have hm := nextNodeIndex_fit s (by rw [← h.n]; exact hfit)
+      have hs := addNodeFromCap_fit s.modulus g es hfit
+      have h1 := h.addNode
+      have hrow : ({ s with suc := s.suc ++ [[]] } : State).suc[g.n]? = some [] := by
+        simp [h.n]
+      have h2 := h1.pushMany g.n (Nat.lt_succ_self _) es [] hrow
+      refine ⟨?_, ?_, ?_⟩
+      all_goals simp only [step, addNodeFromEdges, hm, specStep, hs, ML.addNodeFrom]
+      · have : (s.suc ++ [[]]).set g.n es = s.suc ++ [es] := by
+          rw [h.n]; simp
+        simp only [List.nil_append, this] at h2
+        exact h2
+      · rw [← h.n, mkIx_of_fits _ _ hfit]
+    · have hm := nextNodeIndex_full s (by rw [← h.n]; exact hfit)
+      have hs := addNodeFromCap_full s.modulus g es hfit
+      simp only [step, addNodeFromEdges, hm, specStep, hs]
+      exact ⟨h, trivial, trivial⟩
   | clear =>
     refine ⟨?_, rfl, rfl⟩
     exact new_abs s.modulus
@@ -455,26 +513,39 @@ theorem foldl_push_n (i : Nat) (es : Row) (g : ML) :
   | nil => rfl
   | cons e es ih => simp only [List.foldl_cons]; rw [ih]; rfl
 
-/-- node count of the log after a call -/
+/-- node count of the log after a call that does not panic -/
 def nAfter (n : Nat) : Op → Nat
   | .addNode | .addNodeFromEdges _ => n + 1
   | .clear => 0
   | _ => n
 
-theorem specStep_n (g : ML) (op : Op) : (specStep g op).1.n = nAfter g.n op := by
+/-- node count of the log after a call (`m` = capacity of the index type, `0` = unbounded): `add_node*` on a
+full list panics and adds nothing -/
+def nAfterC (m n : Nat) : Op → Nat
+  | .addNode | .addNodeFromEdges _ => if m = 0 ∨ n < m then n + 1 else n
+  | .clear => 0
+  | _ => n
+
+theorem specStep_n (m : Nat) (g : ML) (op : Op) : (specStep m g op).1.n = nAfterC m g.n op := by
   cases op with
-  | addNode => rfl
-  | addNodeFromEdges es => simp only [specStep, ML.addNodeFrom, nAfter]; rw [foldl_push_n]
+  | addNode =>
+    by_cases h : m = 0 ∨ g.n < m
+    · simp [specStep, addNodeCap_fit m g h, ML.addNode, nAfterC, h]
+    · simp [specStep, addNodeCap_full m g h, nAfterC, h]
+  | addNodeFromEdges es =>
+    by_cases h : m = 0 ∨ g.n < m
+    · simp only [specStep, addNodeFromCap_fit m g es h, ML.addNodeFrom, nAfterC, h, if_true]; rw [foldl_push_n]
+    · simp [specStep, addNodeFromCap_full m g es h, nAfterC, h]
   | clear => rfl
   | addEdge a b w =>
-    simp only [specStep, ML.addEdge, nAfter]
+    simp only [specStep, ML.addEdge, nAfterC]
     split
     · rename_i h; split at h
       · injection h with h; injection h with h1 _; subst h1; rfl
       · cases h
     · rfl
   | updateEdge a b w =>
-    simp only [specStep, ML.updateEdge, nAfter]
+    simp only [specStep, ML.updateEdge, nAfterC]
     split
     · rename_i h; split at h
       · split at h
@@ -483,25 +554,31 @@ theorem specStep_n (g : ML) (op : Op) : (specStep g op).1.n = nAfter g.n op := b
       · cases h
     · rfl
   | setEdgeWeight e w =>
-    simp only [specStep, nAfter]
+    simp only [specStep, nAfterC]
     split <;> rfl
+
+/-- while no call panics at the capacity, the two counts agree -/
+theorem nAfterC_of_fit (m n : Nat) (op : Op)
+    (h : (op = .addNode ∨ ∃ es, op = .addNodeFromEdges es) → m = 0 ∨ n < m) : nAfterC m n op = nAfter n op := by
+  cases op with
+  | addNode => simp [nAfterC, nAfter, h (Or.inl rfl)]
+  | addNodeFromEdges es => simp [nAfterC, nAfter, h (Or.inr ⟨es, rfl⟩)]
+  | _ => rfl
 
 theorem fits_iff (m n : Nat) (op : Op) (ops : List Op) :
     Fits m n (op :: ops) ↔
       ((op = .addNode ∨ ∃ es, op = .addNodeFromEdges es) → m = 0 ∨ n < m) ∧ Fits m (nAfter n op) ops := by
   cases op <;> simp [Fits, nAfter]
 
-/-- **refinement of every history** -/
-theorem run_refines {s : State} {g : ML} (h : LAbs s g) (ops : List Op) (hfit : Fits s.modulus g.n ops) :
-    LAbs (run s ops).1 (specRun g ops).1 ∧ (run s ops).2 = (specRun g ops).2 := by
+/-- **refinement of every history** (no restriction on the history) -/
+theorem run_refines {s : State} {g : ML} (h : LAbs s g) (ops : List Op) :
+    LAbs (run s ops).1 (specRun s.modulus g ops).1 ∧ (run s ops).2 = (specRun s.modulus g ops).2 := by
   induction ops generalizing s g with
   | nil => exact ⟨h, rfl⟩
   | cons op ops ih =>
-    rw [fits_iff] at hfit
-    obtain ⟨h1, hout, hm⟩ := step_refines h op hfit.1
-    have hfit' : Fits (step s op).1.modulus (specStep g op).1.n ops := by
-      rw [hm, specStep_n]; exact hfit.2
-    obtain ⟨h2, houts⟩ := ih h1 hfit'
+    obtain ⟨h1, hout, hm⟩ := step_refines h op
+    obtain ⟨h2, houts⟩ := ih h1
+    rw [hm] at h2 houts
     refine ⟨by simpa [run, specRun] using h2, ?_⟩
     simp only [run, specRun]; rw [hout, houts]
 
@@ -607,16 +684,21 @@ theorem get_setW {g : ML} {id : Nat × Nat} {e : MEdge} (id' : Nat × Nat) (w : 
   · exact ⟨_, rfl, by simp [hc], by simp [hc], by simp [hc]⟩
 
 /-- until `clear`, an index that denotes an edge keeps denoting an edge with the same endpoints -/
-theorem index_stable (g : ML) (op : Op) (hop : op ≠ .clear) (id : Nat × Nat) (e : MEdge)
+theorem index_stable (m : Nat) (g : ML) (op : Op) (hop : op ≠ .clear) (id : Nat × Nat) (e : MEdge)
     (h : g.get id = some e) :
-    ∃ e', (specStep g op).1.get id = some e' ∧ e'.id = e.id ∧ e'.src = e.src ∧ e'.tgt = e.tgt := by
+    ∃ e', (specStep m g op).1.get id = some e' ∧ e'.id = e.id ∧ e'.src = e.src ∧ e'.tgt = e.tgt := by
   cases op with
   | clear => exact absurd rfl hop
-  | addNode => exact ⟨e, h, rfl, rfl, rfl⟩
+  | addNode =>
+    refine ⟨e, ?_, rfl, rfl, rfl⟩
+    by_cases hf : m = 0 ∨ g.n < m
+    · simp only [specStep, addNodeCap_fit m g hf]; exact h
+    · simp only [specStep, addNodeCap_full m g hf]; exact h
   | addNodeFromEdges es =>
     refine ⟨e, ?_, rfl, rfl, rfl⟩
-    simp only [specStep, ML.addNodeFrom]
-    exact get_foldl_push _ es h
+    by_cases hf : m = 0 ∨ g.n < m
+    · simp only [specStep, addNodeFromCap_fit m g es hf, ML.addNodeFrom]; exact get_foldl_push _ es h
+    · simp only [specStep, addNodeFromCap_full m g es hf]; exact h
   | addEdge a b w =>
     simp only [specStep, ML.addEdge]
     split
